@@ -582,3 +582,88 @@ def _prune_sym_of_objective_minus_combination(rec, expr):
         return False
     v = defs[0].value
     return isinstance(v, ast.BinOp) and isinstance(v.op, ast.Sub) and dotted(v.left) == "self.objective" and isinstance(v.right, ast.Name)
+
+
+# ---------------------------------------------------------------------------------------------------
+# R-PRIMALFLOW: the instance published after a solve is the solver's last primal solution
+# ---------------------------------------------------------------------------------------------------
+def r_primalflow(ctx):
+    repo = ctx.repo
+    root = common.solve_root(repo)
+    wname = common.wrapper_param(root)
+    ctx.unit(qualname(root))
+    base = common.wrapper_base(repo)
+    gp = base.methods.get("get_primal_variables")
+    order = None
+    if gp is not None:
+        r = [x for x in ast.walk(gp) if isinstance(x, ast.Return)]
+        if len(r) == 1 and isinstance(r[0].value, ast.Tuple):
+            order = [dotted(e) for e in r[0].value.elts]
+    ok = order == ["self.optimal_G", "self.optimal_F"]
+    ctx.ob("R-PRIMALFLOW", "Wrapper.get_primal_variables", ok, "returns (Gram matrix, function values)" if ok else "returns %s" % order, loc(gp, gp) if gp else base.module.rel)
+    unpacks = [s for s in flow.stmts_of(root, ast.Assign) if isinstance(s.value, ast.Call) and call_name(s.value) == "get_primal_variables" and dotted(s.value.func.value) == wname]
+    if not unpacks or not all(isinstance(s.targets[0], ast.Tuple) and len(s.targets[0].elts) == 2 for s in unpacks):
+        ctx.ob("R-PRIMALFLOW", "PEP.%s::primal variables unpacked" % root.name, False, "get_primal_variables is not unpacked into (G, F)", loc(root, root))
+        return
+    names = {tuple(dotted(e) for e in s.targets[0].elts) for s in unpacks}
+    okn = len(names) == 1
+    ctx.ob("R-PRIMALFLOW", "PEP.%s::one pair of names" % root.name, okn, "the primal solution lives in one pair of locals" if okn else "several pairs of locals: %s" % sorted(names), loc(root, unpacks[0]))
+    if not okn:
+        return
+    G, F = names.pop()
+    # every definition of G / F is such an unpack
+    for nm in (G, F):
+        defs = []
+        for s in flow.stmts_of(root, ast.Assign):
+            for t in s.targets:
+                for e in (t.elts if isinstance(t, ast.Tuple) else [t]):
+                    if dotted(e) == nm:
+                        defs.append(s)
+        foreign = [d for d in defs if d not in unpacks]
+        ctx.ob("R-PRIMALFLOW", "PEP.%s::%s only from the solver" % (root.name, nm), not foreign,
+               "`%s` is only ever the solver's primal solution" % nm if not foreign else
+               "`%s` is also assigned by `%s`: the published instance is then not the solver's solution (e.g. an eigenvalue-thresholded matrix)" % (nm, norm_stmt(foreign[0])[:70]),
+               loc(root, foreign[0] if foreign else unpacks[0]))
+    # every solve is followed by an unpack before the values are published
+    solves = [common.stmt_of(c) for c in ast.walk(root) if isinstance(c, ast.Call) and call_name(c) == "solve" and dotted(c.func.value) == wname]
+    publishes = [s for s in flow.stmts_of(root, ast.Assign) if any(dotted(t) in ("self.G_value", "self.F_value") for t in s.targets)]
+    evals = [common.stmt_of(c) for c in ast.walk(root) if isinstance(c, ast.Call) and call_name(c) == "_eval_points_and_function_values"]
+    for sv in solves:
+        later = [u for u in unpacks if u.lineno > sv.lineno and (flow.dominates(sv, u))]
+        blk = flow.block_of(sv)[2]
+        same_block = [u for u in later if any(x is u for x in blk)]
+        first = solves.index(sv) == 0 and sv is min(solves, key=lambda x: x.lineno)
+        ok = bool(same_block) or (first and bool(later))
+        ctx.ob("R-PRIMALFLOW", "PEP.%s::solve at line-order %d refreshes the primal solution" % (root.name, sorted(x.lineno for x in solves).index(sv.lineno) + 1), ok,
+               "the primal solution is re-read after this solve" if ok else
+               "after this call of solve the locals (%s, %s) are not refreshed from the wrapper: a stale solution is published" % (G, F), loc(root, sv))
+    # published values: after the whole dimension-reduction block, from these names
+    heur_if = [s for s in root.body if isinstance(s, ast.If) and any(isinstance(c, ast.Call) and call_name(c) in ("prepare_heuristic", "heuristic") for c in ast.walk(s))]
+    okp = len(publishes) == 2 and len(evals) == 1
+    msg = "G_value / F_value are published once each and the leaves are evaluated once"
+    if okp:
+        want = {"self.G_value": G, "self.F_value": F}
+        for s in publishes:
+            for t in s.targets:
+                if dotted(t) in want and dotted(s.value) != want[dotted(t)]:
+                    okp, msg = False, "`%s` is published from `%s`, not from the solver's `%s`" % (dotted(t), src(s.value), want[dotted(t)])
+        for s in publishes + evals:
+            if heur_if and not all(flow.dominates(h, s) and h.lineno < s.lineno for h in heur_if):
+                okp, msg = False, ("`%s` is executed before the dimension-reduction block: the published Gram matrix / function values are those of the first "
+                                   "solve while points are evaluated from the last one" % norm_stmt(s)[:60])
+            if flow.conditions_guarding(s) or flow.in_loop(s):
+                okp, msg = False, "`%s` is conditional" % norm_stmt(s)[:60]
+        ev = [c for c in ast.walk(evals[0]) if isinstance(c, ast.Call) and call_name(c) == "_eval_points_and_function_values"][0]
+        fnp = common.pep_class(repo).methods["_eval_points_and_function_values"]
+        ps = params_of(fnp)[1:3]
+        given = {ps[k]: dotted(a) for k, a in enumerate(ev.args[:2])}
+        for kw in ev.keywords:
+            if kw.arg in ps:
+                given[kw.arg] = dotted(kw.value)
+        role = {p: ("F" if p.upper().startswith("F") else "G") for p in ps}
+        for pn, val in given.items():
+            if val != (F if role[pn] == "F" else G):
+                okp, msg = False, "the leaves are evaluated from `%s` passed as %s" % (val, pn)
+    else:
+        msg = "%d publications of G_value / F_value, %d evaluations of the leaves" % (len(publishes), len(evals))
+    ctx.ob("R-PRIMALFLOW", "PEP.%s::published instance is the last solution" % root.name, okp, msg, loc(root, publishes[0] if publishes else root))
